@@ -8,7 +8,7 @@ C03 / C01 with the external functions instantiated by the codec models (what the
   codecExt_ok              `ExtOK (codecExt …)`: what the C14 string parsers return fits the column's storage — from the
                            range theorems of Props/C14.lean (`timeOfString_exact`, `span_parse_exact`) and the checked
                            conversions of the date / timestamp builders
-  C03_wf_codec             `C03_wf` without the `ExtOK` hypothesis
+  C03_wf_codec             `C03_wfS` without the `ExtOK` hypothesis
   C03_wf_codec_typed       … and with `SValOK` replaced by the typing invariant `SVal.typed` the wire decoder checks
   C01_build_decode_codec   `C01_build_decode` at the codec models (it never needed `ExtOK`; stated for symmetry)
 -/
@@ -97,20 +97,22 @@ theorem codecExt_ok (f32Str f64Str : Nat → String) (cast : Nat → Int → Boo
       exact inI64_bounds (SaModel.Props.C14.span_parse_exact _ sp _ v hp h).2.2.2
 
 /-- **C03 with the codec models plugged in**: no hypothesis on the external functions is left.  Remaining: `SchemaOKF`
-(no `FixedSizeBinary(0)`: known finding), `Safe` OR `coveredF` (the hypothesis of `Props.C01.C03_wf'`: both decidable on the
-schema), and `SValOK` (the typing invariant of `SVal`). -/
+(no `FixedSizeBinary(0)`: known finding), `PlainF` (no metadata on a Map's entries field: known finding), `Safe` OR `coveredF`
+(the hypothesis of `Props.C01.C03_wf'`: both decidable on the schema), and `SValOK` (the typing invariant of `SVal`).
+Conclusion: the tightened `Spec.WF` (structure AND `typeOf a = f.dataType`). -/
 theorem C03_wf_codec (f32Str f64Str : Nat → String) (cast : Nat → Int → Bool → Nat → Option (Bool × Int))
     (fields : List Field) (rows : List SVal) (arrs : List Arr)
     (hschema : ∀ f ∈ fields, Lemmas.C03.SchemaOKF f)
+    (hplain : ∀ f ∈ fields, Lemmas.C03.PlainF f)
     (hsafe : (∀ root0, newRoot fields = .ok root0 → Safe root0) ∨ fields.all Build.coveredF = true)
     (hrows : ∀ x ∈ rows, Lemmas.C03.SValOK x)
     (h : toMarrow (codecExt f32Str f64Str cast) fields rows = .ok arrs) :
     arrs.length = fields.length ∧
     ∀ (j : Nat) (f : Field) (a : Arr), fields[j]? = some f → arrs[j]? = some a →
       WF f a = true ∧ (decodeAll a).length = rows.length :=
-  Props.C01.C03_wf' _ fields rows arrs hschema hsafe (codecExt_ok f32Str f64Str cast) hrows h
+  Props.C01.C03_wf' _ fields rows arrs hschema hplain hsafe (codecExt_ok f32Str f64Str cast) hrows h
 
-/-- `SValOK`, the row hypothesis of `C03_wf`, is implied by the typing invariant of `SVal` (`SVal.typed`,
+/-- `SValOK`, the row hypothesis of `C03_wfS`, is implied by the typing invariant of `SVal` (`SVal.typed`,
 Data/SValTyped.lean: every scalar call carries a value of its Rust type).  The wire decoder of the driver checks it
 (`Driver.svalOfJson_typed`), a derived `Serialize` satisfies it (`Roundtrip.ser_ok` gives `SValOK` directly). -/
 theorem typed_SValOK (x : SVal) (h : x.typed = true) : Lemmas.C03.SValOK x := Lemmas.C03.typed_SValOK x h
@@ -121,13 +123,14 @@ known finding; `Safe` OR `coveredF`). -/
 theorem C03_wf_codec_typed (f32Str f64Str : Nat → String) (cast : Nat → Int → Bool → Nat → Option (Bool × Int))
     (fields : List Field) (rows : List SVal) (arrs : List Arr)
     (hschema : ∀ f ∈ fields, Lemmas.C03.SchemaOKF f)
+    (hplain : ∀ f ∈ fields, Lemmas.C03.PlainF f)
     (hsafe : (∀ root0, newRoot fields = .ok root0 → Safe root0) ∨ fields.all Build.coveredF = true)
     (hrows : ∀ x ∈ rows, x.typed = true)
     (h : toMarrow (codecExt f32Str f64Str cast) fields rows = .ok arrs) :
     arrs.length = fields.length ∧
     ∀ (j : Nat) (f : Field) (a : Arr), fields[j]? = some f → arrs[j]? = some a →
       WF f a = true ∧ (decodeAll a).length = rows.length :=
-  C03_wf_codec f32Str f64Str cast fields rows arrs hschema hsafe (fun x hx => typed_SValOK x (hrows x hx)) h
+  C03_wf_codec f32Str f64Str cast fields rows arrs hschema hplain hsafe (fun x hx => typed_SValOK x (hrows x hx)) h
 
 /-- non-vacuity of the typing invariant, and what it refuses -/
 example : SVal.typed (.record "R" (.cons "a" 0 (.int .u8 255) (.cons "c" 1 (.char 0x1F600) .nil))) = true ∧
@@ -174,8 +177,9 @@ example : ∀ arrs, toMarrow exExt exTFields exTRows = .ok arrs →
     arrs.length = exTFields.length ∧ ∀ (j : Nat) (f : Field) (a : Arr), exTFields[j]? = some f →
       arrs[j]? = some a → WF f a = true ∧ (decodeAll a).length = exTRows.length := by
   intro arrs h
-  refine C03_wf_codec _ _ _ exTFields exTRows arrs ?_ (Or.inl ?_) ?_ h
+  refine C03_wf_codec _ _ _ exTFields exTRows arrs ?_ ?_ (Or.inl ?_) ?_ h
   · simp [exTFields, Lemmas.C03.SchemaOKF, Lemmas.C03.SchemaOK]
+  · simp [exTFields, Lemmas.C03.PlainF, Lemmas.C03.PlainDT]
   · intro root0 h0
     rw [show newRoot exTFields = .ok (.struct "$" 0 none
       (.cons (.leaf "$.d" .date32 none []) ⟨"d", false, []⟩
